@@ -98,7 +98,7 @@ func (s *Sim) Ready(allowSendErr, allowCan, allowDropErr, allowDecodeErr bool) [
 	for _, k := range nids {
 		n := s.notifs[k]
 		switch n.th.point {
-		case "notify.invoke", "handler.cas":
+		case "notify.invoke", "handler.log", "handler.cas":
 			out = append(out, Option{Kind: "nrun", ID: k})
 		case "decode":
 			if n.Shape == ShapeNestedGz {
